@@ -181,17 +181,32 @@ Section Iterate.
     | _, _ => []
     end.
 
-  (* MemoizedTraversal + the generator protocol of iterate(): a memoizable value is yielded at its
-     first visit only; internable leaves are yielded at every occurrence when
-     memoize_internables=False and once per identity otherwise (leaves are inline here, so with
-     memoize_internables=True the implementation's behaviour depends on interning: the harness
-     compares only memoizable values in that mode). *)
-  Fixpoint iter_memo (fuel : nat) (seen : list nat) (r : ref) (p : path)
+  (* daglish.is_internable: leaves, and tuples all of whose elements are internable *)
+  Fixpoint internable (fuel : nat) (r : ref) : bool :=
+    match r with
+    | RA _ => true
+    | RP i =>
+        match fuel with
+        | O => false
+        | S f => match nth_error h i with
+                 | Some (NTuple xs) => forallb (internable f) xs
+                 | _ => false
+                 end
+        end
+    end.
+
+  (* MemoizedTraversal + the generator protocol of iterate(): a memoized value is yielded at its
+     first visit only.  With memoize_internables = false (mi = false) internable values are not
+     memoized: they are yielded, and traversed, at every occurrence.  With mi = true the
+     implementation memoizes leaves by id() as well, which depends on CPython's interning; the
+     harness therefore compares only the pointer entries in that mode. *)
+  Fixpoint iter_memo (mi : bool) (fuel : nat) (seen : list nat) (r : ref) (p : path)
     : list nat * list (ref * path) :=
     match r with
     | RA _ => (seen, [(r, p)])
     | RP i =>
-        if existsb (Nat.eqb i) seen then (seen, []) else
+        let memoized := mi || negb (internable (S (length h)) r) in
+        if memoized && existsb (Nat.eqb i) seen then (seen, []) else
         match fuel with
         | O => (seen, [])
         | S f =>
@@ -202,11 +217,11 @@ Section Iterate.
                      : list nat * list (ref * path) :=
                      match cs, es with
                      | c :: cs', pe :: es' =>
-                         let '(s1, y1) := iter_memo f seen c (p ++ [pe]) in
+                         let '(s1, y1) := iter_memo mi f seen c (p ++ [pe]) in
                          let '(s2, y2) := go s1 cs' es' in
                          (s2, y1 ++ y2)
                      | _, _ => (seen, [])
-                     end) (i :: seen) (children e n) (elts e n) in
+                     end) (if memoized then i :: seen else seen) (children e n) (elts e n) in
                 (seen', (r, p) :: ys)
             | None => (seen, [])
             end
